@@ -409,6 +409,9 @@ struct Harness {
     crc: Crc,
     frames_applied: u64,
     ops_executed: u64,
+    /// minimal patterns already established by a full shrink in this process: (layer, class) -> [(op-level kinds, needs nosync)]
+    known_min: std::collections::BTreeMap<(u8, String), Vec<(Vec<u8>, bool)>>,
+    shrink_runs: u64,
 }
 
 fn res_str<T>(r: Result<eyre::Result<T>, String>) -> Result<T, String> {
@@ -430,7 +433,7 @@ impl Harness {
         }
         let dir = scratch.join("wal");
         let tdir = vcore::util::fresh_dir(scratch, "targets");
-        let mut h = Harness { dir, targets: Vec::new(), tdir, crc: Crc::new(), frames_applied: 0, ops_executed: 0 };
+        let mut h = Harness { dir, targets: Vec::new(), tdir, crc: Crc::new(), frames_applied: 0, ops_executed: 0, known_min: Default::default(), shrink_runs: 0 };
         h.reset_targets();
         h
     }
@@ -635,6 +638,7 @@ enum Layer {
 }
 
 fn shows(h: &mut Harness, ops: &[Op], nosync: bool, layer: Layer, class: &str) -> bool {
+    h.shrink_runs += 1;
     let r = eval_node(h, ops, nosync, layer == Layer::ReadPage, layer == Layer::Replay);
     if layer == Layer::ReadPage && r.replay.as_ref().map(|d| d.class.starts_with("op-")).unwrap_or(false) {
         return false;
@@ -690,14 +694,85 @@ fn shrink(h: &mut Harness, ops: &[Op], nosync: bool, layer: Layer, class: &str) 
     }
 }
 
+fn kind_id(op: &Op) -> u8 {
+    match op {
+        Op::W(..) => 0,
+        Op::B(..) => 1,
+        Op::Rot => 2,
+        Op::Trunc => 3,
+        Op::Reopen => 4,
+        Op::ReopenW(..) => 5,
+    }
+}
+
+/// sub-histories of `ops` (last op kept, ops possibly simplified) whose op kinds equal `kinds`
+fn matching_subsequences(ops: &[Op], kinds: &[u8], limit: usize) -> Vec<Vec<Op>> {
+    fn go(ops: &[Op], kinds: &[u8], from: usize, acc: &mut Vec<Op>, out: &mut Vec<Vec<Op>>, limit: usize) {
+        if out.len() >= limit {
+            return;
+        }
+        let k = acc.len();
+        if k == kinds.len() {
+            out.push(acc.clone());
+            return;
+        }
+        let last_slot = k + 1 == kinds.len();
+        let range = if last_slot { ops.len() - 1..ops.len() } else { from..ops.len() - 1 };
+        for i in range {
+            if i < from {
+                continue;
+            }
+            let mut forms = vec![ops[i]];
+            forms.extend(ops[i].simpler());
+            for f in forms {
+                if kind_id(&f) == kinds[k] {
+                    acc.push(f);
+                    go(ops, kinds, i + 1, acc, out, limit);
+                    acc.pop();
+                }
+            }
+        }
+    }
+    let mut out = Vec::new();
+    if !ops.is_empty() && !kinds.is_empty() && kinds.len() <= ops.len() {
+        go(ops, kinds, 0, &mut Vec::new(), &mut out, limit);
+    }
+    out
+}
+
+/// minimal sub-history that still shows (layer, class): first try the patterns a full shrink already
+/// established in this process (each candidate is re-executed, so the answer is always a real reproducer),
+/// otherwise do the full shrink and remember its pattern
+fn minimise(h: &mut Harness, ops: &[Op], nosync: bool, layer: Layer, class: &str) -> (Vec<Op>, bool) {
+    let key = (layer as u8, class.to_string());
+    let known = h.known_min.get(&key).cloned().unwrap_or_default();
+    for (kinds, kns) in &known {
+        if *kns && !nosync {
+            continue;
+        }
+        for cand in matching_subsequences(ops, kinds, 6) {
+            if shows(h, &cand, *kns, layer, class) {
+                return (cand, *kns);
+            }
+        }
+    }
+    let (min, ns) = shrink(h, ops, nosync, layer, class);
+    let kinds: Vec<u8> = min.iter().map(kind_id).collect();
+    let e = h.known_min.entry(key).or_default();
+    if !e.contains(&(kinds.clone(), ns)) {
+        e.push((kinds, ns));
+    }
+    (min, ns)
+}
+
 fn report_div(h: &mut Harness, rep: &mut Reporter, alpha: &str, ops: &[Op], nosync: bool, layer: Layer, d: &Div) {
-    let (min, ns) = shrink(h, ops, nosync, layer, &d.class);
+    let (min, ns) = minimise(h, ops, nosync, layer, &d.class);
     let sig = format!("C03/history/{}/{}", pattern(&min, ns), d.class);
     let oracle = match layer {
         Layer::Replay => "replay",
         Layer::ReadPage => "read_page",
     };
-    rep.violation("C03", oracle, &sig, || json!({"part": "history", "alphabet": alpha, "nosync": nosync, "ops": enc_ops(ops), "minimal": enc_ops(&min)}), &d.expected, &d.observed);
+    rep.violation("C03", oracle, &sig, || json!({"part": "history", "alphabet": alpha, "nosync": nosync, "ops": enc_ops(ops), "minimal": enc_ops(&min), "minimal_nosync": ns}), &d.expected, &d.observed);
 }
 
 // ---------------------------------------------------------------------------
@@ -784,7 +859,8 @@ fn visit(h: &mut Harness, rep: &mut Reporter, alpha: &str, nosync: bool, parent:
 
 fn explore(ctx: &Ctx, h: &mut Harness, rep: &mut Reporter, alpha: &str, nosync: bool, depth: usize, rp_depth: usize) -> bool {
     let ab = alphabet(alpha);
-    let split = 3usize.min(depth);
+    // level-1 nodes are executed by every worker (reported by their owner); level-2 nodes and their subtrees are dealt round-robin
+    let split = 2usize.min(depth);
     let mut frontier = vec![Node { ops: vec![], rp_div: false }];
     let mut idx = 0u64;
     let mut since_check = 0u32;
@@ -1230,6 +1306,7 @@ impl Check for C03 {
         }
         rep.count("frames_applied_on_recovery", h.frames_applied);
         rep.count("operations_executed_including_reexecution", h.ops_executed);
+        rep.count("minimisation_reexecutions", h.shrink_runs);
     }
 
     fn replay(&self, ctx: &Ctx, case: &Value, rep: &mut Reporter) {
